@@ -1948,7 +1948,18 @@ impl Oracle for TxValidityOracle {
 										let bad = if wallet_funded {
 											*fee < *pf
 										} else {
-											*fee <= *pf || (*fee as u128) * (*pw as u128) <= (*pf as u128) * (w as u128)
+											// the same fee for the same weight is a plain rebroadcast (e.g. re-built with a new
+											// nLockTime after a reorganisation): nothing is lowered, nothing replaced
+											// an unchanged feerate (within 2 sat/kWU: re-signing changes a DER signature's length and
+											// with it weight and fee by a unit) is a plain rebroadcast (e.g. re-built with a new
+											// nLockTime after a reorganisation): nothing is lowered, nothing replaced
+											let (fr_new, fr_prev) = ((*fee as i128) * 1000 / (w as i128), (*pf as i128) * 1000 / (*pw as i128));
+											if (fr_new - fr_prev).abs() <= 2 && (w as i128 - *pw as i128).abs() <= 4 {
+												crate::runner::witness("rbf-rebroadcast-same-feerate");
+												false
+											} else {
+												*fee <= *pf || (*fee as u128) * (*pw as u128) <= (*pf as u128) * (w as u128)
+											}
 										};
 										if bad {
 											return Err(Failure::new(
